@@ -17,6 +17,7 @@ invariant with its trace line.
 import json
 import os
 import re
+import threading
 from vlib.core import *
 from vlib.core import tlc
 
@@ -62,24 +63,48 @@ STORE_PROBES = {
 
 def run(ctx):
     quick = ctx.quick()
-    # 1. the design -------------------------------------------------------------------------------------------------
-    model_check(ctx, SPEC, "MC_AuthSession", "MC_AuthSession.cfg" if quick else "MC_AuthSession_thorough.cfg", timeout=3000)
-    # every interleaving of 3 concurrent presenters mixed with sequential presentations / password change / session deletion
-    model_check(ctx, SPEC, "MC_AuthSession", "MC_AuthSession_conc.cfg", timeout=3000)
-    if not quick:   # the ideal (session path refuses a disabled owner) satisfies the disabled clause as well
-        model_check(ctx, SPEC, "MC_AuthSession", "MC_AuthSession_ideal.cfg", timeout=3000)
-    ctx.cov["exhaustive"] = True
     ctx.cov["actions"] = {}
+    ctx._c12_mc, ctx._c12_mc_err = None, []
+    try:
+        _run(ctx, quick)
+    finally:
+        t = getattr(ctx, "_c12_mc", None)
+        if t is not None:
+            t.join()
+    if ctx._c12_mc_err:
+        raise ctx._c12_mc_err[0]
+    ctx.cov["exhaustive"] = True
 
+
+def design(ctx, quick):
+    """1. the design: exhaustive TLC (runs in a thread next to the Go replay; its own staging tag, so no clash)"""
+    try:
+        model_check(ctx, SPEC, "MC_AuthSession", "MC_AuthSession.cfg" if quick else "MC_AuthSession_thorough.cfg", timeout=3000)
+        # every interleaving of 3 concurrent presenters mixed with sequential presentations / password change / session deletion
+        model_check(ctx, SPEC, "MC_AuthSession", "MC_AuthSession_conc.cfg", timeout=3000)
+        if not quick:   # the ideal (session path refuses a disabled owner) satisfies the disabled clause as well
+            model_check(ctx, SPEC, "MC_AuthSession", "MC_AuthSession_ideal.cfg", timeout=3000)
+    except BaseException as ex:      # re-raised by run() in the main thread
+        ctx._c12_mc_err.append(ex)
+
+
+def _run(ctx, quick):
     # 2. behaviours -------------------------------------------------------------------------------------------------
     seq = behaviours(ctx, SPEC, "MC_AuthSession", "Beh_AuthSession.cfg")
     seq += behaviours(ctx, SPEC, "MC_AuthSession", "Beh_AuthSession_pw.cfg")       # credential histories (fast path before/after SetPassword, delete + re-create)
     seq += behaviours(ctx, SPEC, "MC_AuthSession", "Beh_AuthSession_sess.cfg" if quick else "Beh_AuthSession_sess6.cfg")   # session-life histories
     conc = behaviours(ctx, SPEC, "MC_AuthSession", "Beh_AuthSession_conc.cfg")
     conc += behaviours(ctx, SPEC, "MC_AuthSession", "Beh_AuthSession_conc3.cfg", timeout=1200)
-    # (TLC's simulator evaluates the exporting invariant on every successor of the last step: ~25 behaviours per trace)
-    sims = behaviours(ctx, SPEC, "MC_AuthSession", "Sim_AuthSession.cfg", num=40 if quick else 600, depth=9)
-    mixed = [] if quick else behaviours(ctx, SPEC, "MC_AuthSession", "Sim_AuthSession_mixed.cfg", num=300, depth=12)
+    # (TLC's simulator evaluates the exporting invariant on every successor of the last step: one per enabled action kind, ~7 per trace)
+    sims = behaviours(ctx, SPEC, "MC_AuthSession", "Sim_AuthSession.cfg", num=150 if quick else 1500, depth=9)
+    mixed = [] if quick else behaviours(ctx, SPEC, "MC_AuthSession", "Sim_AuthSession_mixed.cfg", num=300, depth=14)
+    hist = {}
+    for b in sims + mixed:
+        for x in b["steps"]:
+            hist[x["a"]] = hist.get(x["a"], 0) + 1
+    ctx.cov["actions"]["simulated_action_histogram"] = dict(sorted(hist.items(), key=lambda kv: -kv[1]))   # SimNext: one successor per action kind
+    ctx._c12_mc = threading.Thread(target=design, args=(ctx, quick), daemon=True)
+    ctx._c12_mc.start()
     probes = [(n, s, "raw") for n, s in F4_PROBES.items()] + [(n, s, "raw") for n, s in STORE_PROBES.items()]
     behs = [{"store": m, "steps": s} for _, s, m in probes]
     behs += [{"store": "raw", "steps": b["steps"]} for b in seq + sims]
@@ -142,7 +167,19 @@ def run(ctx):
         report(ctx, inv, "auth", STORE_PROBE, STORE_PROBES[STORE_PROBE], prow)
 
     # 5. all behaviours: property on real outcomes, then conformance ----------------------------------------------------
-    vp = validate(ctx, SPEC, "Trace_AuthSession", "Trace_AuthSession_P.cfg", mtr, env=env, timeout=3000)
+    box = {}
+
+    def conf():
+        try:
+            box["vc"] = validate(ctx, SPEC, "Trace_AuthSession", "Trace_AuthSession_C.cfg", mtr, env=env, timeout=3000)
+        except BaseException as ex:
+            box["err"] = ex
+    tc = threading.Thread(target=conf, daemon=True)      # pass C next to pass P (distinct staging tags); only used if P accepts
+    tc.start()
+    try:
+        vp = validate(ctx, SPEC, "Trace_AuthSession", "Trace_AuthSession_P.cfg", mtr, env=env, timeout=3000)
+    finally:
+        tc.join()
     if vp.inv:
         steps = history(mrow, vp.line)
         inv = vp.inv.rstrip("T") if vp.inv.endswith("T") else vp.inv
@@ -153,7 +190,9 @@ def run(ctx):
         raise Inconclusive("pass P stopped at line %s of %s (trace shape not accepted): %s\n%s"
                            % (vp.line, vp.total, mrow[vp.line - 1] if vp.line and vp.line <= len(mrow) else None, vp.out[-1500:]))
     else:
-        vc = validate(ctx, SPEC, "Trace_AuthSession", "Trace_AuthSession_C.cfg", mtr, env=env, timeout=3000)
+        if "err" in box:
+            raise box["err"]
+        vc = box["vc"]
         if vc.inv or not vc.accepted:
             ctx.cov["nonconformance"] += 1
             ctx.notes.append("pass C rejected at line %s (%s): %s" % (vc.line, vc.inv, mrow[vc.line - 1] if vc.line and vc.line <= len(mrow) else None))
